@@ -67,8 +67,8 @@ def family_body(fam, K):
     raise ValueError(fam)
 
 
-def member_text(m, j, file=""):
-    head = f"id:m{j}"
+def member_text(m, j, file="", dup=False):
+    head = "id:dup" if dup else f"id:m{j}"
     if m["fam"] == "error_vm_fail":
         head += " validation-mode:fail"
     elif m["fam"] == "error_vm_nofail":
@@ -93,8 +93,13 @@ def generate(rng, i, tier):
     planted = sorted(l for l in range(1, nrec) if l not in blanks and rng.random() < 0.3)
     k = rng.randint(1, 4)
     members = [{"fam": rng.choice(FAMILIES), "K": rng.randint(0, nrec), "K2": rng.randint(0, nrec)} for _ in range(k)]
+    dup_ids = k >= 2 and rng.random() < 0.08
+    if dup_ids:
+        # two or more members written with the SAME identity (legal: nothing forbids it); families without injected errors
+        members = [{"fam": rng.choice(["plain", "no", "fas", "when_false", "after_stop", "after_skip", "plain"]), "K": rng.randint(0, nrec), "K2": 0} for _ in range(k)]
     return {
         "stratum": "A",
+        "dup_ids": dup_ids,
         "seed": rng.getrandbits(32),
         "nrec": nrec,
         "blanks": blanks,
@@ -109,7 +114,7 @@ def generate(rng, i, tier):
 
 
 def reductions(sc):
-    for cand in drop_each(sc["members"], 1):
+    for cand in drop_each(sc["members"], 2 if sc.get("dup_ids") else 1):
         yield with_(sc, members=cand)
     if sc["stratum"] == "B":
         for rows in gen.rows_reductions(sc["rows"]):
@@ -190,7 +195,7 @@ def execute(sc):
 
     def monitor(cp, identity, line, site):
         # (a) online: the bit as of this probe, and never False -> True
-        if site != "p" or not identity.startswith("m"):
+        if site != "p" or not identity.startswith("m") or not identity[1:].isdigit():
             return
         j = int(identity[1:])
         F, same_line, _ = exp[j]
@@ -225,14 +230,14 @@ def execute(sc):
         disk = None
         if meth == "standalone":
             for j, m in enumerate(members):
-                cp, printed, res = ops.standalone(member_text(m, j, "src/f.csv"), entry="collect")
+                cp, printed, res = ops.standalone(member_text(m, j, "src/f.csv", dup=bool(sc.get("dup_ids"))), entry="collect")
                 out.runs += 1
                 got.append({"cp": cp, "result_valid": None})
         else:
             cs = ops.new_csvpaths()
             with ops.quiet():
                 cs.file_manager.add_named_file(name="f", path="src/f.csv")
-                cs.paths_manager.add_named_paths(name="g", paths=[member_text(m, j) for j, m in enumerate(members)])
+                cs.paths_manager.add_named_paths(name="g", paths=[member_text(m, j, dup=bool(sc.get("dup_ids"))) for j, m in enumerate(members)])
             pre = sc.get("prelude")
             if pre:
                 with ops.quiet():
@@ -247,8 +252,8 @@ def execute(sc):
 
             def on_yield(line):
                 seen["n"] += 1
-                for r in ops.results_of(cs, "g"):
-                    ident = r.csvpath.identity
+                for ri, r in enumerate(ops.results_of(cs, "g")):
+                    ident = f"#{ri}"  # by position: members may share an identity
                     if not r.csvpath.is_valid:
                         online["seen_false"][ident] = True
                     elif online["seen_false"].get(ident) and online["bad"] is None:
@@ -266,7 +271,8 @@ def execute(sc):
         where = f"{meth} policy {sc['policy']} planted {sc['planted']} blanks {sc['blanks']}"
         if online["bad"] is not None:
             ident, line, gotv, want = online["bad"]
-            out.v("online_verdict", f"{where}: member {ident} {member_text(members[int(ident[1:])], int(ident[1:]))!r}: at line {line} is_valid was {gotv}, expected {want}", family=members[int(ident[1:])]["fam"])
+            mi = int(ident[1:]) if ident[1:].isdigit() and int(ident[1:]) < len(members) else 0
+            out.v("online_verdict", f"{where}: member {ident} {member_text(members[mi], mi)!r}: at line {line} is_valid was {gotv}, expected {want}", family=members[mi]["fam"])
         if online.get("mgr_bad") is not None:
             ident, line, gotv, want = online["mgr_bad"]
             out.v("manager_is_valid_midrun", f"{where}: polled while member {ident} was on line {line}: results_manager.is_valid('g')={gotv} but the conjunction of the members' verdicts at that moment is {want}")
@@ -333,6 +339,8 @@ def execute(sc):
             elif man.get("all_valid") != conj:
                 out.v("all_valid", f"{where}: run manifest all_valid={man.get('all_valid')}, conjunction of members {wants} is {conj}")
             for j, m in enumerate(members):
+                if sc.get("dup_ids"):
+                    break  # members that share an identity share a directory: only the aggregates are asserted
                 md = (disk["members"] if disk else {}).get(f"m{j}")
                 mm = md.get("manifest") if md else None
                 if mm is None:
@@ -349,6 +357,7 @@ def execute(sc):
         out.extra["online_checks"] = online["checks"]
         out.extra["manager_polls_midrun"] = online.get("mgr_polls", 0)
         out.probe("run after an earlier run that used a cross-path signal on the same instance", False)
+        out.probe("members sharing one identity", bool(sc.get("dup_ids")))
         out.probe("verdict event on the last line", "last" in pos)
         out.probe("group with both valid and failed members", k > 1 and len(set(wants)) == 2)
         out.log([list(e) for e in exp], [ops.path_state(g["cp"]) for g in got], mgr_valid, len(out.violations))
